@@ -111,48 +111,81 @@ use self::tfu::*;
         // unserved-passenger pair: it covers the removed nodes' contribution) -- not derived from rs_ok
         self.removes(segment, vehicle_idx) ==> self.tfu_pre(self.train_formations@, self.unserved_passengers,
             Some(vehicle_idx), None::<Vehicle>, self.removed_nodes(segment, vehicle_idx)),
+        // WHOLE-TOUR CASE ONLY: the precondition `listed_ok` of replace_vehicle_by_dummy -- C10 "vehicle … listings are sorted
+        // and match the stored tours", as far as that body needs it for the vehicle that goes: its type has an id list
+        // (`vehicle_ids_grouped_and_sorted[&vehicle_type_id]`), which is sorted and holds the id (`binary_search(..).unwrap()`).
+        // Not derivable from rs_ok (sched_ok speaks about the uninterpreted listing sched_vehicles, not about the grouped id
+        // lists).  (The other precondition of replace_vehicle_by_dummy, tfu_pre for the nodes of the WHOLE tour -- C09 for the
+        // unserved-passenger pair --, IS derived: lemma_whole_tour_case, from tfu_pre for the removed nodes above.)
+        self.removes(segment, vehicle_idx) && self.whole_tour(segment, vehicle_idx) ==> self.listed_ok(vehicle_idx),
     ensures
         // "# Errors: If the vehicle is not a real vehicle an error is returned."; Tour::remove refuses (C12)
         !self.vehicles@.contains_key(vehicle_idx) ==> r is Err, // @obl C13.remove_segment.err_not_real_vehicle
         self.vehicles@.contains_key(vehicle_idx) && !self.seg_removable(segment, vehicle_idx) ==> r is Err, // @obl C13.remove_segment.err_tour_refuses
-        // "If the segment contains all non-depot nodes of the tour, the vehicle is replaced by a dummy."
-        self.removes(segment, vehicle_idx) && self.kept_nodes(segment, vehicle_idx).len() < 3
-            ==> r == spec_replace_by_dummy(self, vehicle_idx), // @obl C13.remove_segment.whole_tour_delegates
-        // otherwise (Tour::remove's contract does not say when the shrunk tour is None): either it delegated, or
-        // the provider keeps a tour and the operation succeeds with exactly the documented effect
-        self.removes(segment, vehicle_idx) && r != spec_replace_by_dummy(self, vehicle_idx) && self.id_left(segment, vehicle_idx) ==> r is Ok, // @obl C13.remove_segment.ok_when_tour_accepts
-        // D11: ids are 16 bit and never reused: when all 2^16 have been handed out and the removed trips would need a new
+        // otherwise the operation succeeds (in both cases: whether the provider keeps a tour or is replaced by a dummy) ...
+        self.removes(segment, vehicle_idx) && self.id_left(segment, vehicle_idx) ==> r is Ok, // @obl C13.remove_segment.ok_when_tour_accepts
+        // ... except D11: ids are 16 bit and never reused: when all 2^16 have been handed out and the removed trips would need a new
         // dummy tour, the modification is refused (the unfixed code wrapped around and overwrote the tour stored under id 0)
-        self.removes(segment, vehicle_idx) && r != spec_replace_by_dummy(self, vehicle_idx) && !self.id_left(segment, vehicle_idx) ==> r is Err, // @obl C13.remove_segment.refuses_instead_of_reusing_an_id
-        self.removes(segment, vehicle_idx) && r != spec_replace_by_dummy(self, vehicle_idx) && r is Ok ==>
+        self.removes(segment, vehicle_idx) && !self.id_left(segment, vehicle_idx) ==> r is Err, // @obl C13.remove_segment.refuses_instead_of_reusing_an_id
+
+        // ---- WHOLE-TOUR CASE: "If the segment contains all non-depot nodes of the tour, the vehicle is replaced by a dummy." --
+        // (whole_tour: at most the two depots would be kept.)  The effect is the one of replace_vehicle_by_dummy (its contract,
+        // slices/dummy_ops.vs).  C13 "a vehicle left without activities disappears … removed service trips are handed back (… in
+        // a new dummy tour)": no vehicle / tour under the id, one occurrence of the id leaves the sorted id list of its type,
+        // which stays sorted; ONE new dummy tour under the unused id Dummy(vehicle_counter) holds exactly the service trips of
+        // the tour, in order (none if it serves no service trip)
+        self.removes(segment, vehicle_idx) && self.whole_tour(segment, vehicle_idx) && r is Ok ==>
+            self.vehicle_gone(vehicle_idx, &r->Ok_0), // @obl C13.remove_segment.whole_tour_vehicle_disappears_trips_go_to_one_new_dummy
+        self.removes(segment, vehicle_idx) && self.whole_tour(segment, vehicle_idx) && r is Ok && self.needs_dummy(vehicle_idx) ==>
+            self.trips_in_new_dummy(vehicle_idx, &r->Ok_0), // @obl C13.remove_segment.whole_tour_vehicle_disappears_trips_go_to_one_new_dummy
+        self.removes(segment, vehicle_idx) && self.whole_tour(segment, vehicle_idx) && r is Ok && !self.needs_dummy(vehicle_idx) ==>
+            self.no_new_dummy(&r->Ok_0), // @obl C13.remove_segment.whole_tour_vehicle_disappears_trips_go_to_one_new_dummy
+        // (the tour is the removed block with at most its two depots around it: it holds a service trip iff the block does, and
+        // its service trips are those of the block -- see the clauses for both cases below)
+        self.removes(segment, vehicle_idx) && self.whole_tour(segment, vehicle_idx) ==>
+            self.needs_dummy(vehicle_idx) == has_service(&self.network, self.removed_nodes(segment, vehicle_idx)),
+        // every other vehicle / tour (map equalities: vehicles - v, tours - v), the id lists of the other types, every dummy
+        // tour that was there, the network
+        self.removes(segment, vehicle_idx) && self.whole_tour(segment, vehicle_idx) && r is Ok ==>
+            self.others_untouched(vehicle_idx, &r->Ok_0), // @obl C13.remove_segment.other_tours_untouched
+        // C09: costs
+        self.removes(segment, vehicle_idx) && self.whole_tour(segment, vehicle_idx) && r is Ok ==>
+            r->Ok_0.costs == self.costs - self.tours@[vehicle_idx].costs, // @obl C09.remove_segment.costs_follow_tour
+
+        // ---- PARTIAL CASE (3 or more nodes are kept): the provider keeps a tour -----------------------------------------------
+        self.removes(segment, vehicle_idx) && !self.whole_tour(segment, vehicle_idx) && r is Ok ==>
             r->Ok_0.vehicles@ == self.vehicles@ && r->Ok_0.vehicle_ids_grouped_and_sorted@ == self.vehicle_ids_grouped_and_sorted@
             && r->Ok_0.network == self.network, // @obl C13.remove_segment.vehicle_set_unchanged
-        self.removes(segment, vehicle_idx) && r != spec_replace_by_dummy(self, vehicle_idx) && r is Ok ==>
+        self.removes(segment, vehicle_idx) && !self.whole_tour(segment, vehicle_idx) && r is Ok ==>
             self.provider_shrunk(segment, vehicle_idx, r->Ok_0.tours@), // @obl C13.remove_segment.provider_loses_exactly_segment
-        self.removes(segment, vehicle_idx) && r != spec_replace_by_dummy(self, vehicle_idx) && r is Ok ==>
+        self.removes(segment, vehicle_idx) && !self.whole_tour(segment, vehicle_idx) && r is Ok ==>
             self.other_tours_untouched(vehicle_idx, r->Ok_0.tours@), // @obl C13.remove_segment.other_tours_untouched
-        self.removes(segment, vehicle_idx) && r != spec_replace_by_dummy(self, vehicle_idx) && r is Ok
-            && has_service(&self.network, self.removed_nodes(segment, vehicle_idx)) ==>
+        // C09: costs
+        self.removes(segment, vehicle_idx) && !self.whole_tour(segment, vehicle_idx) && r is Ok ==>
+            r->Ok_0.costs == self.costs + r->Ok_0.tours@[vehicle_idx].costs - self.tours@[vehicle_idx].costs, // @obl C09.remove_segment.costs_follow_tour
+
+        // ---- BOTH CASES (the same clause holds whether the provider keeps a tour or not; in the whole-tour case it is derived
+        // from the contract of replace_vehicle_by_dummy, which speaks about the nodes of the whole tour: lemma_whole_tour_case) ----
+        // "All service trips are added to a new dummy tour."
+        self.removes(segment, vehicle_idx) && r is Ok && has_service(&self.network, self.removed_nodes(segment, vehicle_idx)) ==>
             self.trips_handed_back(self.removed_nodes(segment, vehicle_idx), r->Ok_0.dummy_tours@, r->Ok_0.dummy_ids_sorted@), // @obl C13.remove_segment.removed_trips_in_new_dummy_tour
-        self.removes(segment, vehicle_idx) && r != spec_replace_by_dummy(self, vehicle_idx) && r is Ok
-            && has_service(&self.network, self.removed_nodes(segment, vehicle_idx)) ==>
+        // the counter advances exactly when a new dummy tour takes the removed service trips
+        self.removes(segment, vehicle_idx) && r is Ok && has_service(&self.network, self.removed_nodes(segment, vehicle_idx)) ==>
             r->Ok_0.vehicle_counter == self.vehicle_counter + 1, // @obl C13.remove_segment.fresh_dummy_id
-        self.removes(segment, vehicle_idx) && r != spec_replace_by_dummy(self, vehicle_idx) && r is Ok
-            && !has_service(&self.network, self.removed_nodes(segment, vehicle_idx)) ==>
+        self.removes(segment, vehicle_idx) && r is Ok && !has_service(&self.network, self.removed_nodes(segment, vehicle_idx)) ==>
             r->Ok_0.dummy_tours@ == self.dummy_tours@ && r->Ok_0.dummy_ids_sorted@ == self.dummy_ids_sorted@
             && r->Ok_0.vehicle_counter == self.vehicle_counter, // @obl C13.remove_segment.no_trip_no_dummy
-        self.removes(segment, vehicle_idx) && r != spec_replace_by_dummy(self, vehicle_idx) && r is Ok ==>
+        // the provider leaves the formation of every removed activity (order kept), no other formation changes
+        self.removes(segment, vehicle_idx) && r is Ok ==>
             self.formations_follow(self.removed_nodes(segment, vehicle_idx), vehicle_idx, r->Ok_0.train_formations@), // @obl C13.remove_segment.formations_elsewhere_untouched
         // C10: the ids stay valid (in particular every dummy id is below the counter: the next id is fresh again)
-        self.removes(segment, vehicle_idx) && r != spec_replace_by_dummy(self, vehicle_idx) && r is Ok ==> r->Ok_0.ids_ok(), // @obl C10.remove_segment.ids_stay_valid
-        // C09: unserved passengers, costs, depot usage; C15 / C10: rotation cycles
-        self.removes(segment, vehicle_idx) && r != spec_replace_by_dummy(self, vehicle_idx) && r is Ok ==>
+        self.removes(segment, vehicle_idx) && r is Ok ==> r->Ok_0.ids_ok(), // @obl C10.remove_segment.ids_stay_valid
+        // C09: unserved passengers, depot usage; C15 / C10: rotation cycles
+        self.removes(segment, vehicle_idx) && r is Ok ==>
             self.unserved_follow(self.removed_nodes(segment, vehicle_idx), vehicle_idx, r->Ok_0.unserved_passengers), // @obl C09.remove_segment.unserved_passengers_delta_exact
-        self.removes(segment, vehicle_idx) && r != spec_replace_by_dummy(self, vehicle_idx) && r is Ok ==>
-            r->Ok_0.costs == self.costs + r->Ok_0.tours@[vehicle_idx].costs - self.tours@[vehicle_idx].costs, // @obl C09.remove_segment.costs_follow_tour
-        self.removes(segment, vehicle_idx) && r != spec_replace_by_dummy(self, vehicle_idx) && r is Ok ==>
+        self.removes(segment, vehicle_idx) && r is Ok ==>
             usage_exact(r->Ok_0.depot_usage@, &self.network, r->Ok_0.vehicles@, r->Ok_0.tours@), // @obl C09.remove_segment.depot_usage_exact
-        self.removes(segment, vehicle_idx) && r != spec_replace_by_dummy(self, vehicle_idx) && r is Ok ==>
+        self.removes(segment, vehicle_idx) && r is Ok ==>
             self.transitions_follow(vehicle_idx, r->Ok_0.next_period_transitions@, r->Ok_0.maintenance_violation, r->Ok_0.vehicles@, r->Ok_0.tours@), // @obl C10.remove_segment.transitions_follow_new_tours
 //@end
 
